@@ -20,6 +20,7 @@ import r_parsers
 import r_lookup
 import grammar
 import r_unit
+import r_views
 
 TRUST_COMMON = [
     "rustc nightly: MIR (mir-opt-level=0), type and trait resolution as dumped by driver/lrfacts",
@@ -277,6 +278,15 @@ def c13(rep, tier):
     import r_strslice
     fns = [f for f in p.fns.values() if f.id.startswith("liquid_lib::stdlib::filters::string::") or f.id.startswith("liquid_lib::stdlib::filters::slice::")]
     r_strslice.run(p, rep, sorted(fns, key=lambda f: f.id))
+    rep.analysed["config:all"] = {"bodies": len(p.fns)}
+
+
+def c12(rep, tier):
+    p = P("all")
+    r_views.run_forwarders(p, rep)
+    r_views.run_cast(p, rep)
+    r_views.run_derived(p, rep)
+    r_table.run_truth_table(p, rep)
     rep.analysed["config:all"] = {"bodies": len(p.fns)}
 
 
@@ -571,5 +581,20 @@ PROPS = {
         ),
         "trusted": TRUST_COMMON,
         "note": "a units discipline, not a specification of each filter",
+    },
+    "C12": {
+        "run": c12,
+        "level": "other",
+        "design_ref": "DESIGN.md §3 R-FWD(views), R-CAST, R-TABLE(derive keys, truth); §4 C12",
+        "technique": "override census + same-name forwarding check over the wrapper impls of ValueView/ObjectView/ArrayView; cast census in the serde bridge; field-set agreement of derive-generated view methods",
+        "explanation": (
+            "Decided: the wrapper impls (&V, ValueCow, Value, Option<T>; &O; &A) override every trait method whose default would change behaviour (the set of "
+            "pure defaults is computed from the trait's own default bodies) and each forwards to the same-named method; no value-changing `as` cast exists in "
+            "model/**/ser.rs (integers are narrowed with TryFrom); every derive(ObjectView, ValueView) struct in the workspace has size/keys/iter/contains_key/get/"
+            "to_value agreeing on its field set with to_value inserting every field unconditionally; the truthiness table of every kind is the specified one. "
+            "NOT decided: serde round-trip equality, derive vs serde on user structs with serde attributes, printed forms."
+        ),
+        "trusted": TRUST_COMMON,
+        "note": "agreement of sibling implementations at the level of which method forwards where",
     },
 }
